@@ -25,7 +25,7 @@ RULE = (
     "scans: every run equals the eager scan. Exact on dyadic alphabets (var/std 1e-12). Non-trivial = some run with tree "
     "depth >= 2 (reductions) / >= 3 blocks (scans)."
 )
-BUDGET = {"quick": 70, "thorough": 900}
+BUDGET = {"quick": 140, "thorough": 900}
 ASSUMPTIONS = [
     "true preemptive races are not explored; freedom from them is reduced to task purity (C13)",
     "split_every is set through dask.config around graph construction (both dask's and flox's tree builders read it there)",
